@@ -14,7 +14,9 @@ RULE = ("cases = 1-3 epoch definitions (zero / past / present / future start tim
         "epochs; ~20% of cases carry malformed definitions: zero or negative duration, empty or duplicate identifier, "
         "inconsistent counters) followed by 6-22 ops: BeginBlocker at generated times (steps 0, 1ns, d/3, d/2, d-1, d, d+1, 2d, "
         "3..9d+d/3 of a defined duration d; 10% of direct cases also step backwards) and later AddEpochInfo calls; 1 case in 8 "
-        "runs through the whole application BeginBlock/EndBlock/Commit with the epochs in the genesis file; "
+        "runs through the whole application BeginBlock/EndBlock/Commit with the epochs in the genesis file; in 1 direct case in 3 "
+        "the middle one of the three recording receivers panics on a chosen (identifier, epoch 1-4, AfterEpochEnd | "
+        "BeforeEpochStart) call, once or twice; "
         "non-trivial = some identifier advanced at least twice (an AfterEpochEnd/BeforeEpochStart pair was delivered) and some "
         "block left a started epoch unchanged; distinct = distinct input")
 ASSUMPTIONS = [
@@ -23,7 +25,8 @@ ASSUMPTIONS = [
     "StartTime <= CurrentEpochStartTime <= now) and whose block times do not decrease; all other traces are still compared "
     "with the model",
 ]
-TRUSTED = ["the recording EpochHooks in harness/c14 (two instances around the application's own hooks)"]
+TRUSTED = ["the recording EpochHooks in harness/c14 (receivers 0 and 2 around the application's own hooks, receiver 1 panics on a "
+           "chosen call); blocks are run on a cache branch that is committed only when BeginBlocker returns"]
 
 ZERO_TIME = -62135596800 * 10 ** 9  # Go's time.Time{} in ns since the Unix epoch
 
@@ -52,6 +55,8 @@ def _ranks(rec):
     names = set()
     for g in rec["input"].get("genesis") or []:
         names.add(g.get("ident", ""))
+    if rec["input"].get("fail"):
+        names.add(rec["input"]["fail"]["ident"])
     for op in rec["input"]["ops"]:
         if op["op"] == "add":
             names.add(op.get("ident", ""))
@@ -105,8 +110,12 @@ def _to_coq_case(rec):
             "true" if o["ok"] else "false", "; ".join(_info(e, rk) for e in o["infos"] or []),
             "; ".join(_hook(c, rk) for c in o["log"] or []))
         items.append("(%s, %s)" % (t, ob))
-    return "(Build_case %d [%s] [%s])" % (
-        rec["obs"]["k"], "; ".join(_info(e, rk) for e in rec["obs"]["init"] or []), "; ".join(items))
+    f = rec["input"].get("fail")
+    fail = "(Build_trigger 0 (0)%Z true, 0)"
+    if f:
+        fail = "(Build_trigger %d %s %s, %d)" % (rk[f["ident"]], z(f["n"]), "true" if f["kind"] == "end" else "false", f["times"])
+    return "(Build_case %d %s [%s] [%s])" % (
+        rec["obs"]["k"], fail, "; ".join(_info(e, rk) for e in rec["obs"]["init"] or []), "; ".join(items))
 
 
 def _walk(rec):
@@ -120,6 +129,8 @@ def _walk(rec):
             if op.get("started"):
                 yield ("add-running-epoch", None)
         else:
+            if not o["ok"]:
+                yield ("block-aborted-by-panicking-hook", None)
             if last_t is not None:
                 if t == last_t:
                     yield ("time-equal", None)
@@ -166,6 +177,8 @@ def nontrivial(rec):
 
 def classify(rec):
     ks = ["mode:" + rec["input"]["mode"], "ops=%d" % (len(rec["input"]["ops"]) // 5 * 5)]
+    if rec["input"].get("fail"):
+        ks.append("failing-receiver:" + rec["input"]["fail"]["kind"])
     seen = set()
     for k, _ in _walk(rec):
         seen.add(k)
